@@ -280,6 +280,9 @@ def mon_hooks(sc):
                     q = e.split(",")
                     if q[0] == i and q[1] == "R":
                         return "OnCancel invoked for request id %s although its Batch entry completed with the peer's result" % i
+                    if q[0] == i and q[1] == "E" and q[2] not in ("-32097", "-32096", "-32603") \
+                            and any(p == ",".join(q[1:]) for (_, p) in fed.get(i, [])):
+                        return "OnCancel invoked for request id %s although its Batch entry completed with the peer's error reply" % i
     oncancel_cfg = sc["cfg"].split("\t")[2] == "1"
     if oncancel_cfg:
         # a Call that ended by its own context (no peer error of that code fed) must have had OnCancel
@@ -291,6 +294,15 @@ def mon_hooks(sc):
                     if not by_peer and sc["complete"] and cancels.get(o["ids"][0], 0) != 1:
                         return "Call %d ended by its context but OnCancel ran %d times for id %s" % (
                             n, cancels.get(o["ids"][0], 0), o["ids"][0])
+                if r[0] == "batch" and r[1] != "-" and o["ids"]:
+                    for e in r[1].split(";"):
+                        q = e.split(",")
+                        if len(q) < 3 or q[1] != "E" or q[2] not in ("-32097", "-32096"):
+                            continue
+                        by_peer = any(p.startswith("E,%s," % q[2]) for (l2, p) in fed.get(q[0], []))
+                        if not by_peer and sc["complete"] and cancels.get(q[0], 0) != 1:
+                            return "Batch %d: the entry for id %s ended by the context but OnCancel ran %d times for it" % (
+                                n, q[0], cancels.get(q[0], 0))
     if len(stops) > 1:
         return "OnStop invoked %d times" % len(stops)
     if sc["complete"] and len(stops) != 1:
